@@ -210,7 +210,8 @@ JoinL(ls, sep) == IF ls = <<>> THEN "" ELSE FoldLeft(LAMBDA acc, x : acc \o sep 
 InsertClausesI(e) ==
   LET x == e.args.x  cmode == e.args.cmode  rmode == e.args.rmode
       es == e.pre.ents
-      degenerate == x.s >= x.e
+      badopt == cmode \notin {"error", "replace", "merge"} \/ rmode \notin {"silence", "warning", "error"}
+      degenerate == x.s >= x.e \/ badopt              \* an invalid option value is rejected like any other bad argument
       coll == {i \in Idx(es) : Overlaps(es[i], x.s, x.e)}
       others == SelectSeq(es, LAMBDA iv : ~Overlaps(iv, x.s, x.e))
       colliding == SelectSeq(es, LAMBDA iv : Overlaps(iv, x.s, x.e))
@@ -224,6 +225,7 @@ InsertClausesI(e) ==
       expected(n) == SortIv(Append(others, n))
       post == e.post.ents
   IN [ C11_degenerate_entry_rejected |-> degenerate => (~Ok(e)),
+       C13_invalid_option_value_rejected |-> badopt => (~Ok(e) /\ e.pe),
        C11_no_collision_adds_entry |-> (~degenerate /\ coll = {}) => (Ok(e) /\ post = expected(x)),
        C11_error_mode_raises_collision |-> (~degenerate /\ coll # {} /\ cmode = "error") => e.st = "CollisionError",
        C11_replace_removes_exactly_colliders |-> (~degenerate /\ coll # {} /\ cmode = "replace") => (Ok(e) /\ post = expected(x)),
@@ -236,15 +238,17 @@ InsertClausesI(e) ==
 InsertClausesP(e) ==
   LET x == e.args.x  cmode == e.args.cmode  rmode == e.args.rmode
       ps == e.pre.ents
+      badopt == cmode \notin {"error", "replace", "merge"} \/ rmode \notin {"silence", "warning", "error"}
       coll == {i \in Idx(ps) : ps[i].t = x.t}
       others == SelectSeq(ps, LAMBDA p : p.t # x.t)
       oldl == JoinL(Labels(SelectSeq(ps, LAMBDA p : p.t = x.t)), "-")
       expected(n) == SortPt(Append(others, n))
       post == e.post.ents
-  IN [ C11_no_collision_adds_entry |-> (coll = {}) => (Ok(e) /\ post = expected(x)),
-       C11_error_mode_raises_collision |-> (coll # {} /\ cmode = "error") => e.st = "CollisionError",
-       C11_replace_removes_exactly_colliders |-> (coll # {} /\ cmode = "replace") => (Ok(e) /\ post = expected(x)),
-       C11_merge_joint_extent_and_labels |-> (coll # {} /\ cmode = "merge") => (Ok(e) /\ post = expected(Pt(x.t, oldl \o "-" \o x.l))),
+  IN [ C13_invalid_option_value_rejected |-> badopt => (~Ok(e) /\ e.pe),
+       C11_no_collision_adds_entry |-> (~badopt /\ coll = {}) => (Ok(e) /\ post = expected(x)),
+       C11_error_mode_raises_collision |-> (~badopt /\ coll # {} /\ cmode = "error") => e.st = "CollisionError",
+       C11_replace_removes_exactly_colliders |-> (~badopt /\ coll # {} /\ cmode = "replace") => (Ok(e) /\ post = expected(x)),
+       C11_merge_joint_extent_and_labels |-> (~badopt /\ coll # {} /\ cmode = "merge") => (Ok(e) /\ post = expected(Pt(x.t, oldl \o "-" \o x.l))),
        C11_span_is_hull |-> Ok(e) => (e.post.lo = Min2(e.pre.lo, x.t) /\ e.post.hi = Max2(e.pre.hi, x.t)),
        C11_sorted_after |-> Ok(e) => WFTier(e.post),
        C11_warning_iff_collision |-> Ok(e) => (e.out <=> (rmode = "warning" /\ coll # {})) ]
